@@ -172,6 +172,8 @@ class Tensor:
         if isinstance(data, Tensor):
             self.copy_from(data); return
         
+        if isinstance(data, np.generic):
+            data = np.asarray(data) # numpy scalars (0-d results of reductions, indexing) keep their dtype
         if not isinstance(data, np.ndarray):
             try:
                 data = np.array(data, dtype=default_type__)
